@@ -61,3 +61,14 @@ func sharedWorld(p *load.Program) *prove.World {
 	sharedWorlds[p] = w
 	return w
 }
+
+// NotDecided records that a rule could not decide a construct because its
+// extraction is incomplete or the shape is outside its method (policy: DESIGN.md
+// §I.5b). It is a discharged obligation with an explicit reason plus a note, so
+// floors still see the entity and the evidence lists what was not decided.
+func (c *Ctx) NotDecided(rule, construct, pos, why string) {
+	c.R.OK(rule, construct, pos, "NOT DECIDED — "+why)
+	c.R.Note("%s: %s not decided: %s", rule, construct, why)
+	n, _ := c.R.Extra["not_decided"].(int)
+	c.R.Extra["not_decided"] = n + 1
+}
